@@ -26,6 +26,8 @@ struct World {
     st: Vec<St>,
     locks: HashMap<usize, LockSt>,
     schedule: Vec<usize>,
+    /// alternatively: the thread to choose at each decision point (replay of a recorded schedule)
+    schedule_ids: Vec<usize>,
     /// (chosen index, number of options, chosen thread id) per decision point
     decisions: Vec<(usize, usize, usize)>,
     deadlock: Option<String>,
@@ -64,7 +66,13 @@ fn decide(w: &mut World) {
         return;
     }
     let k = w.decisions.len();
-    let idx = if k < w.schedule.len() { w.schedule[k].min(r.len() - 1) } else { 0 };
+    let idx = if k < w.schedule_ids.len() {
+        r.iter().position(|t| *t == w.schedule_ids[k]).unwrap_or(0)
+    } else if k < w.schedule.len() {
+        w.schedule[k].min(r.len() - 1)
+    } else {
+        0
+    };
     w.decisions.push((idx, r.len(), r[idx]));
     w.current = Some(r[idx]);
 }
@@ -149,10 +157,10 @@ pub struct RunOut {
 }
 
 /// runs the thread bodies under the forced schedule prefix (then always the first runnable thread)
-pub fn run_once(schedule: Vec<usize>, bodies: Vec<Box<dyn FnOnce() -> String + Send>>) -> RunOut {
+pub fn run_once(schedule: Vec<usize>, schedule_ids: Vec<usize>, bodies: Vec<Box<dyn FnOnce() -> String + Send>>) -> RunOut {
     let n = bodies.len();
     crate::hook::SCHED_MODE.store(true, std::sync::atomic::Ordering::SeqCst);
-    *WORLD.lock().unwrap_or_else(|e| e.into_inner()) = Some(World { active: true, current: None, st: vec![St::Ready; n], locks: HashMap::new(), schedule, decisions: vec![], deadlock: None });
+    *WORLD.lock().unwrap_or_else(|e| e.into_inner()) = Some(World { active: true, current: None, st: vec![St::Ready; n], locks: HashMap::new(), schedule, schedule_ids, decisions: vec![], deadlock: None });
     {
         let mut g = WORLD.lock().unwrap_or_else(|e| e.into_inner());
         decide(g.as_mut().unwrap());
